@@ -1,10 +1,644 @@
-(* Stream/Proofs.v — C16: lemmas about Stream/Proto.v and Stream/Model.v *)
+(* Stream/Proofs.v — C16: the stream codecs (Stream/Model.v).
+   Round trip of every frame with the coupling invariant encoder context = decoder context,
+   decode_all (encode_all ms) = ms, the truncation (prefix) theorems, absence of panics. *)
 From Coq Require Import ZifyN ZifyNat ZifyBool.
-From ZV Require Import Common.Bytes Stream.Consts Stream.Proto Stream.Model.
+From ZV Require Import Common.Bytes Common.BytesFacts Stream.Consts Stream.Proto Stream.Model Stream.ProofsProto.
 Open Scope N_scope.
 
+Arguments N.mul : simpl never.
+Arguments N.add : simpl never.
+Arguments N.sub : simpl never.
+Arguments N.div : simpl never.
+Arguments N.land : simpl never.
+Arguments N.shiftr : simpl never.
+Arguments N.pow : simpl never.
+Arguments N.ltb : simpl never.
+Arguments N.leb : simpl never.
+Arguments N.eqb : simpl never.
+Arguments N.of_nat : simpl never.
+Arguments N.to_nat : simpl never.
+Arguments firstn : simpl never.
+Arguments skipn : simpl never.
+
+(* ---------- big endian ---------- *)
 Lemma be_enc_length n v : length (be_enc n v) = n.
 Proof.
-  revert v; induction n as [|n IH]; intro v; simpl; [reflexivity|].
-  rewrite app_length, IH. simpl. lia.
+  revert v; induction n as [|n IH]; intro v; cbn [be_enc]; [reflexivity|].
+  rewrite app_length, IH. cbn [length]. lia.
+Qed.
+
+Lemma be_dec_app a b : be_dec (a ++ [b]) = be_dec a * 256 + b.
+Proof. unfold be_dec. rewrite fold_left_app. reflexivity. Qed.
+
+Lemma be_rt n : forall v, v < 256 ^ N.of_nat n -> be_dec (be_enc n v) = v.
+Proof.
+  induction n as [|n IH]; intros v H.
+  - change (256 ^ N.of_nat 0) with 1 in H. cbn. lia.
+  - cbn [be_enc]. rewrite be_dec_app.
+    rewrite N.shiftr_div_pow2. change (2 ^ 8) with 256.
+    change 255 with (N.ones 8). rewrite N.land_ones. change (2 ^ 8) with 256.
+    rewrite IH.
+    + pose proof (N.div_mod v 256 ltac:(lia)). lia.
+    + replace (N.of_nat (S n)) with (N.succ (N.of_nat n)) in H by lia.
+      rewrite N.pow_succ_r' in H. apply N.div_lt_upper_bound; lia.
+Qed.
+
+Lemma be64_rt v : v < two64 -> be_dec (be64 v) = v.
+Proof. intro H. apply (be_rt 8). exact H. Qed.
+Lemma be64_len v : len (be64 v) = 8.
+Proof. unfold len, be64. rewrite be_enc_length. reflexivity. Qed.
+Lemma be64_length v : length (be64 v) = 8%nat.
+Proof. apply be_enc_length. Qed.
+
+(* ---------- reader ---------- *)
+Lemma has_bytes_spec : forall s n, has_bytes s n = (n <=? len s).
+Proof.
+  induction s as [|b s IH]; intro n; cbn [has_bytes].
+  - rewrite len_nil. destruct (n =? 0) eqn:E; lia.
+  - rewrite len_cons. destruct (n =? 0) eqn:E; [lia|]. rewrite IH. lia.
+Qed.
+
+Lemma read_full_app a r : read_full (len a) (a ++ r) = DOk (a, r).
+Proof.
+  unfold read_full. destruct (len a =? 0) eqn:E.
+  - destruct a; [reflexivity|]. rewrite len_cons in E. lia.
+  - destruct a as [|b a]; [rewrite len_nil in E; lia|].
+    cbn [app]. change (b :: a ++ r) with ((b :: a) ++ r).
+    rewrite has_bytes_spec. rewrite len_app.
+    replace (len (b :: a) <=? len (b :: a) + len r) with true by lia.
+    rewrite firstn_len_app, skipn_len_app. reflexivity.
+Qed.
+
+Lemma read_u64_app v r : v < two64 -> read_u64 (be64 v ++ r) = DOk (v, r).
+Proof.
+  intro H. unfold read_u64. rewrite <- (be64_len v) at 1. rewrite read_full_app.
+  cbn [dbind]. rewrite be64_rt by exact H. reflexivity.
+Qed.
+
+(* what a successful / failed ReadFull says about the stream *)
+Lemma read_full_ok_inv n s a r : read_full n s = DOk (a, r) -> s = a ++ r /\ len a = n.
+Proof.
+  unfold read_full. destruct (n =? 0) eqn:E.
+  - intro H. inversion H; subst. split; [reflexivity|]. rewrite len_nil. lia.
+  - destruct s as [|b s]; [discriminate|]. rewrite has_bytes_spec.
+    destruct (n <=? len (b :: s)) eqn:E2; [|discriminate].
+    intro H. inversion H; subst. split.
+    + symmetry. apply firstn_skipn.
+    + unfold len in *. rewrite firstn_length. lia.
+Qed.
+
+Lemma read_full_err_inv n s e : read_full n s = DErr e -> e = DEof \/ e = DUnexpEof.
+Proof.
+  unfold read_full. destruct (n =? 0); [discriminate|].
+  destruct s; [intro H; inversion H; auto|].
+  destruct (has_bytes _ _); [discriminate|]. intro H; inversion H; auto.
+Qed.
+
+Lemma read_full_ext n p q a r : read_full n p = DOk (a, r) -> read_full n (p ++ q) = DOk (a, r ++ q).
+Proof.
+  intro H. apply read_full_ok_inv in H. destruct H as [-> <-].
+  rewrite <- app_assoc. apply read_full_app.
+Qed.
+
+Lemma read_u64_ok_inv s v r : read_u64 s = DOk (v, r) -> exists a, s = a ++ r /\ len a = 8.
+Proof.
+  unfold read_u64. destruct (read_full 8 s) as [[a r']|e] eqn:E; cbn [dbind]; [|discriminate].
+  intro H. inversion H; subst. apply read_full_ok_inv in E. exists a. exact E.
+Qed.
+Lemma read_u64_err_inv s e : read_u64 s = DErr e -> e = DEof \/ e = DUnexpEof.
+Proof.
+  unfold read_u64. destruct (read_full 8 s) as [[a r']|e'] eqn:E; cbn [dbind]; [discriminate|].
+  intro H. inversion H; subst. eapply read_full_err_inv; eauto.
+Qed.
+Lemma read_u64_ext p q v r : read_u64 p = DOk (v, r) -> read_u64 (p ++ q) = DOk (v, r ++ q).
+Proof.
+  unfold read_u64. destruct (read_full 8 p) as [[a r']|e] eqn:E; cbn [dbind]; [|discriminate].
+  intro H. inversion H; subst. rewrite (read_full_ext _ _ q _ _ E). reflexivity.
+Qed.
+
+(* ---------- constants (re-checked whenever Consts.v is regenerated) ---------- *)
+Lemma limit_lt_two63 : read_bytes_limit < two63.
+Proof. reflexivity. Qed.
+Lemma limit_lt_max_alloc : read_bytes_limit < max_alloc.
+Proof. reflexivity. Qed.
+Lemma count_limit_alloc : (read_bytes_limit / 8) * entry_sizeof <= max_alloc.
+Proof. vm_compute. discriminate. Qed.
+Lemma max_alloc_lt_two63 : max_alloc < two63.
+Proof. reflexivity. Qed.
+Lemma frame_ae_ne_hb : (frame_app_entries =? frame_link_heartbeat) = false.
+Proof. reflexivity. Qed.
+Lemma frame_app_ne_hb : (frame_app =? frame_link_heartbeat) = false.
+Proof. reflexivity. Qed.
+Lemma frame_app_ne_ae : (frame_app =? frame_app_entries) = false.
+Proof. reflexivity. Qed.
+Lemma hb_type_eq : link_heartbeat_type = msg_heartbeat.
+Proof. reflexivity. Qed.
+
+(* below the limit nothing panics in make() *)
+Lemma make_bytes_ok size : size <= read_bytes_limit -> make_panics size 1 = false.
+Proof.
+  intro H. unfold make_panics. pose proof limit_lt_two63. pose proof limit_lt_max_alloc.
+  apply orb_false_iff. split; lia.
+Qed.
+Lemma make_entries_ok l : l <= read_bytes_limit / 8 -> make_panics l entry_sizeof = false.
+Proof.
+  intro H. unfold make_panics. pose proof count_limit_alloc. pose proof max_alloc_lt_two63.
+  assert (l * entry_sizeof <= read_bytes_limit / 8 * entry_sizeof) by (apply N.mul_le_mono_r; exact H).
+  assert (l <= l * entry_sizeof).
+  { rewrite <- (N.mul_1_r l) at 1. apply N.mul_le_mono_l. unfold entry_sizeof. lia. }
+  apply orb_false_iff. split; lia.
+Qed.
+
+(* ---------- boolean equalities ---------- *)
+Lemma same_group_names a b :
+  same_group a b = true -> bytes_eqb (g_name a) (g_name b) = true -> a = b.
+Proof.
+  unfold same_group. intros H Hn. apply andb_true_iff in H as [H H3]. apply andb_true_iff in H as [H1 H2].
+  apply bytes_eqb_eq in Hn. destruct a, b; cbn in *.
+  apply N.eqb_eq in H1, H2, H3. subst. reflexivity.
+Qed.
+Lemma group_eqb_eq a b : group_eqb a b = true -> a = b.
+Proof. unfold group_eqb. intro H. apply andb_true_iff in H as [H1 H2]. apply same_group_names; assumption. Qed.
+
+Lemma is_none_eq {A} (o : option A) : is_none o = true -> o = None.
+Proof. destruct o; [discriminate|reflexivity]. Qed.
+
+Lemma snap_is_zero_eq s : snap_is_zero s = true -> s = snap0.
+Proof.
+  unfold snap_is_zero. intro H. apply andb_true_iff in H as [H H4]. apply andb_true_iff in H as [H H3].
+  apply andb_true_iff in H as [H1 H2].
+  destruct s as [d [c i t]]; cbn in *. apply is_none_eq in H1. apply N.eqb_eq in H2, H3. subst.
+  destruct c as [[|? ?] [|? ?] [|? ?] [|? ?]]; try discriminate. reflexivity.
+Qed.
+
+(* ---------- entries of a compact frame ---------- *)
+Lemma entry_frame_len1 e : (1 <= length (entry_frame e))%nat.
+Proof. unfold entry_frame. rewrite app_length, be64_length. lia. Qed.
+
+Lemma nlen_cons {A} (x : A) l : nlen (x :: l) = 1 + nlen l.
+Proof. unfold nlen. cbn [length]. lia. Qed.
+
+Lemma read_entries_rt : forall es fuel acc rest,
+  (length es <= fuel)%nat -> forallb entry_ok es = true ->
+  forallb (fun e => entry_size e <=? read_bytes_limit) es = true ->
+  read_entries fuel (nlen es) acc (concat (map entry_frame es) ++ rest) = DOk (acc ++ es, rest).
+Proof.
+  induction es as [|e es IH]; intros fuel acc rest Hf Hok Hsz.
+  - rewrite app_nil_r. destruct fuel; reflexivity.
+  - destruct fuel as [|f]; [cbn in Hf; lia|].
+    cbn [forallb] in Hok, Hsz. apply andb_true_iff in Hok as [He Hes]. apply andb_true_iff in Hsz as [Hs Hss].
+    apply N.leb_le in Hs. pose proof limit_lt_two63 as L63.
+    cbn [read_entries map concat]. rewrite nlen_cons.
+    replace (1 + nlen es =? 0) with false by lia.
+    unfold entry_frame at 1. rewrite <- !app_assoc.
+    rewrite read_u64_app by (unfold two63, two64 in *; lia). cbn [dbind].
+    replace (read_bytes_limit <? entry_size e) with false by lia.
+    rewrite (make_bytes_ok _ Hs), andb_false_r.
+    rewrite <- entry_size_ok. rewrite read_full_app. cbn [dbind].
+    rewrite entry_rt; [|assumption|lia]. cbn [lift dbind].
+    replace (1 + nlen es - 1) with (nlen es) by lia.
+    rewrite IH; [|cbn in Hf; lia|assumption|assumption].
+    rewrite <- app_assoc. reflexivity.
+Qed.
+
+(* ---------- one msgappv2 frame ---------- *)
+Lemma link_heartbeat_unique m :
+  is_link_heartbeat m = true ->
+  ((m_term m =? 0) && (m_logterm m =? 0) && (m_index m =? 0) && (match m_entries m with [] => true | _ => false end) &&
+   (m_commit m =? 0) && snap_is_zero (m_snap m) && negb (m_reject m) && (m_rhint m =? 0) && is_none (m_ctx m) &&
+   group_eqb (m_fromg m) group0 && group_eqb (m_tog m) group0) = true ->
+  m = link_heartbeat.
+Proof.
+  unfold is_link_heartbeat. intros H1 H2.
+  apply andb_true_iff in H1 as [H1 Hto]. apply andb_true_iff in H1 as [Hty Hfrom].
+  split_ok H2.
+  destruct m as [ty to from term lt ix es commit snap rej rh ctx fg tg]; cbn in *.
+  repeat match goal with H : (_ =? _) = true |- _ => apply N.eqb_eq in H end.
+  repeat match goal with H : group_eqb _ _ = true |- _ => apply group_eqb_eq in H end.
+  repeat match goal with H : is_none _ = true |- _ => apply is_none_eq in H end.
+  repeat match goal with H : snap_is_zero _ = true |- _ => apply snap_is_zero_eq in H end.
+  destruct es; [|discriminate]. destruct rej; [discriminate|]. subst. reflexivity.
+Qed.
+
+Lemma compact_rebuild local remote st m :
+  is_continue st m = true -> compact_ok local remote st m = true ->
+  m = mkMsg msg_app (g_rid (st_tog st)) (g_rid (st_fromg st)) (st_term st) (st_term st) (st_index st)
+            (m_entries m) (m_commit m) snap0 false 0 None (st_fromg st) (st_tog st) /\
+  remote = g_node (st_fromg st) /\ local = g_node (st_tog st).
+Proof.
+  unfold is_continue, compact_ok. intros H1 H2. split_ok H1. split_ok H2.
+  assert (Ef : st_fromg st = m_fromg m).
+  { apply same_group_names; [assumption|]. rewrite bytes_eqb_eq in *. congruence. }
+  assert (Et : st_tog st = m_tog m).
+  { apply same_group_names; [assumption|]. rewrite bytes_eqb_eq in *. congruence. }
+  destruct m as [ty to from term lt ix es commit snap rej rh ctx fg tg]; cbn in *.
+  repeat match goal with H : (_ =? _) = true |- _ => apply N.eqb_eq in H end.
+  repeat match goal with H : is_none _ = true |- _ => apply is_none_eq in H end.
+  repeat match goal with H : snap_is_zero _ = true |- _ => apply snap_is_zero_eq in H end.
+  destruct rej; [discriminate|]. subst. repeat split; reflexivity.
+Qed.
+
+Lemma msg_ok_size m : msg_ok m = true -> msg_size m < two63.
+Proof. unfold msg_ok. intro H. apply andb_true_iff in H as [_ H]. apply N.ltb_lt. exact H. Qed.
+Lemma msg_ok_commit m : msg_ok m = true -> m_commit m < two64.
+Proof. unfold msg_ok. intro H. split_ok H. ok_lt. assumption. Qed.
+Lemma msg_ok_entries m : msg_ok m = true -> forallb entry_ok (m_entries m) = true.
+Proof. unfold msg_ok. intro H. split_ok H. assumption. Qed.
+
+(* the step of the coupling invariant: a well-formed message is decoded to itself, and the decoder's
+   context after it is the encoder's context after it *)
+Lemma v2_frame_rt local remote st m rest :
+  v2_msg_ok local remote st m = true ->
+  v2_decode local remote st (v2_frame st m ++ rest) = DOk (m, v2_next st m, rest).
+Proof.
+  unfold v2_msg_ok. intro H. apply andb_true_iff in H as [Hok H].
+  unfold v2_frame, v2_next.
+  destruct (is_link_heartbeat m) eqn:Ehb.
+  - (* link heartbeat *)
+    rewrite (link_heartbeat_unique m Ehb H).
+    cbn [app v2_decode]. rewrite N.eqb_refl. reflexivity.
+  - destruct (is_continue st m) eqn:Ec.
+    + (* compact AppEntries frame *)
+      apply andb_true_iff in H as [H Hsz]. apply andb_true_iff in H as [Hc Hn]. apply N.leb_le in Hn.
+      destruct (compact_rebuild local remote st m Ec Hc) as [Em [Er El]].
+      pose proof (msg_ok_commit m Hok) as Hcm. pose proof (msg_ok_entries m Hok) as Hes.
+      cbn [app v2_decode]. rewrite frame_ae_ne_hb, N.eqb_refl.
+      rewrite <- Er, <- El, !N.eqb_refl. cbn [negb orb].
+      rewrite <- !app_assoc.
+      rewrite read_u64_app by (pose proof limit_lt_two63; unfold two63, two64 in *;
+                               assert (read_bytes_limit / 8 <= read_bytes_limit) by (apply N.div_le_upper_bound; lia); lia).
+      cbn [dbind].
+      replace (read_bytes_limit / 8 <? nlen (m_entries m)) with false by lia.
+      rewrite (make_entries_ok _ Hn).
+      rewrite read_entries_rt; [|idtac|assumption|assumption].
+      2:{ rewrite app_length.
+          pose proof (concat_map_length_ge entry_frame (m_entries m) entry_frame_len1). lia. }
+      cbn [dbind app]. rewrite read_u64_app by assumption. cbn [dbind].
+      rewrite <- Em. reflexivity.
+    + (* full MsgApp frame *)
+      apply N.leb_le in H. pose proof (msg_ok_size m Hok) as Hs.
+      cbn [app v2_decode]. rewrite frame_app_ne_hb, frame_app_ne_ae, N.eqb_refl.
+      rewrite <- !app_assoc.
+      rewrite read_u64_app by (unfold two63, two64 in *; lia). cbn [dbind].
+      replace (read_bytes_limit <? msg_size m) with false by lia.
+      rewrite (make_bytes_ok _ H), andb_false_r.
+      rewrite <- msg_size_ok. rewrite read_full_app. cbn [dbind].
+      rewrite msg_rt by assumption. reflexivity.
+Qed.
+
+(* ---------- whole sequences ---------- *)
+Lemma v2_frame_len1 st m : (1 <= length (v2_frame st m))%nat.
+Proof.
+  unfold v2_frame. destruct (is_link_heartbeat m); [cbn; lia|].
+  destruct (is_continue st m); cbn [length]; lia.
+Qed.
+Lemma v2_encode_all_length : forall ms st, (length ms <= length (v2_encode_all st ms))%nat.
+Proof.
+  induction ms as [|m ms IH]; intro st; cbn [v2_encode_all length]; [lia|].
+  rewrite app_length. pose proof (v2_frame_len1 st m). specialize (IH (v2_next st m)). lia.
+Qed.
+
+Lemma v2_roundtrip_fuel local remote : forall ms st fuel,
+  (length ms < fuel)%nat -> v2_seq_ok local remote st ms = true ->
+  v2_decode_all fuel local remote st (v2_encode_all st ms) = (ms, DEof).
+Proof.
+  induction ms as [|m ms IH]; intros st fuel Hf Hok.
+  - destruct fuel; [lia|]. reflexivity.
+  - destruct fuel as [|f]; [lia|]. cbn [v2_seq_ok] in Hok. apply andb_true_iff in Hok as [Hm Hms].
+    cbn [v2_encode_all v2_decode_all].
+    rewrite (v2_frame_rt local remote st m _ Hm).
+    rewrite IH; [reflexivity|cbn in Hf; lia|assumption].
+Qed.
+
+Theorem v2_roundtrip local remote ms :
+  v2_seq_ok local remote st0 ms = true ->
+  v2_run local remote (v2_encode_all st0 ms) = (ms, DEof).
+Proof.
+  intro H. unfold v2_run. apply v2_roundtrip_fuel; [|assumption].
+  pose proof (v2_encode_all_length ms st0). lia.
+Qed.
+
+(* the coupling invariant itself: after decoding the encoding of ms the decoder holds the encoder's context *)
+Fixpoint v2_dec_state (fuel : nat) (local remote : N) (st : cstate) (s : bytes) : cstate :=
+  match fuel with
+  | O => st
+  | S f => match v2_decode local remote st s with
+           | DErr _ => st
+           | DOk (_, st', s') => v2_dec_state f local remote st' s'
+           end
+  end.
+Lemma v2_coupling local remote : forall ms st fuel,
+  (length ms < fuel)%nat -> v2_seq_ok local remote st ms = true ->
+  v2_dec_state fuel local remote st (v2_encode_all st ms) = v2_enc_state st ms.
+Proof.
+  induction ms as [|m ms IH]; intros st fuel Hf Hok.
+  - destruct fuel; [lia|]. reflexivity.
+  - destruct fuel as [|f]; [lia|]. cbn [v2_seq_ok] in Hok. apply andb_true_iff in Hok as [Hm Hms].
+    cbn [v2_encode_all v2_dec_state]. rewrite (v2_frame_rt local remote st m _ Hm).
+    unfold v2_enc_state. cbn [fold_left]. apply IH; [cbn in Hf; lia|assumption].
+Qed.
+
+(* ---------- the plain codec ---------- *)
+Lemma plain_frame_rt m rest :
+  plain_msg_ok m = true -> plain_decode (plain_encode m ++ rest) = DOk (m, rest).
+Proof.
+  unfold plain_msg_ok. intro H. apply andb_true_iff in H as [Hok Hl]. apply N.leb_le in Hl.
+  pose proof (msg_ok_size m Hok) as Hs.
+  unfold plain_decode, plain_encode. rewrite <- !app_assoc.
+  rewrite read_u64_app by (unfold two63, two64 in *; lia). cbn [dbind].
+  replace (read_bytes_limit <? msg_size m) with false by lia.
+  rewrite <- msg_size_ok. rewrite read_full_app. cbn [dbind].
+  rewrite msg_rt by assumption. reflexivity.
+Qed.
+
+Lemma plain_encode_len1 m : (1 <= length (plain_encode m))%nat.
+Proof. unfold plain_encode. rewrite app_length, be64_length. lia. Qed.
+
+Lemma plain_roundtrip_fuel : forall ms fuel,
+  (length ms < fuel)%nat -> plain_seq_ok ms = true ->
+  plain_decode_all fuel (plain_encode_all ms) = (ms, DEof).
+Proof.
+  induction ms as [|m ms IH]; intros fuel Hf Hok.
+  - destruct fuel; [lia|]. reflexivity.
+  - destruct fuel as [|f]; [lia|]. unfold plain_seq_ok in Hok. cbn [forallb] in Hok.
+    apply andb_true_iff in Hok as [Hm Hms].
+    unfold plain_encode_all. cbn [map concat plain_decode_all].
+    rewrite (plain_frame_rt m _ Hm). fold (plain_encode_all ms).
+    rewrite IH; [reflexivity|cbn in Hf; lia|assumption].
+Qed.
+
+Theorem plain_roundtrip ms :
+  plain_seq_ok ms = true -> plain_run (plain_encode_all ms) = (ms, DEof).
+Proof.
+  intro H. unfold plain_run. apply plain_roundtrip_fuel; [|assumption].
+  unfold plain_encode_all. pose proof (concat_map_length_ge plain_encode ms plain_encode_len1). lia.
+Qed.
+
+(* ---------- truncation: a decoder run on a prefix of a stream ---------- *)
+Definition eof_like (e : derr) : Prop := e = DEof \/ e = DUnexpEof.
+
+Lemma read_entries_ext : forall fuel cnt acc p q es r,
+  read_entries fuel cnt acc p = DOk (es, r) -> read_entries fuel cnt acc (p ++ q) = DOk (es, r ++ q).
+Proof.
+  induction fuel as [|f IH]; intros cnt acc p q es r H; cbn [read_entries] in *.
+  - destruct (cnt =? 0); [|discriminate]. inversion H; subst. reflexivity.
+  - destruct (cnt =? 0); [inversion H; subst; reflexivity|].
+    destruct (read_u64 p) as [[size s1]|e] eqn:E1; cbn [dbind] in *; [|discriminate].
+    rewrite (read_u64_ext _ q _ _ E1). cbn [dbind].
+    destruct (read_bytes_limit <? size); [discriminate|].
+    destruct ((v2_buf_size <? size) && make_panics size 1); [discriminate|].
+    destruct (read_full size s1) as [[buf s2]|e] eqn:E2; cbn [dbind] in *; [|discriminate].
+    rewrite (read_full_ext _ _ q _ _ E2). cbn [dbind].
+    destruct (lift (entry_unmarshal buf)) as [e|e]; cbn [dbind] in *; [|discriminate].
+    apply IH. exact H.
+Qed.
+
+Lemma read_entries_mono : forall f f' cnt acc s x,
+  (f <= f')%nat -> read_entries f cnt acc s = DOk x -> read_entries f' cnt acc s = DOk x.
+Proof.
+  induction f as [|f IH]; intros f' cnt acc s x Hle H; cbn [read_entries] in H.
+  - destruct (cnt =? 0) eqn:E; [|discriminate]. destruct f'; cbn [read_entries]; rewrite E; exact H.
+  - destruct f' as [|f']; [lia|]. cbn [read_entries].
+    destruct (cnt =? 0); [exact H|].
+    destruct (read_u64 s) as [[size s1]|e]; cbn [dbind] in *; [|discriminate].
+    destruct (read_bytes_limit <? size); [discriminate|].
+    destruct ((v2_buf_size <? size) && make_panics size 1); [discriminate|].
+    destruct (read_full size s1) as [[buf s2]|e]; cbn [dbind] in *; [|discriminate].
+    destruct (lift (entry_unmarshal buf)) as [e|e]; cbn [dbind] in *; [|discriminate].
+    apply IH; [lia|exact H].
+Qed.
+
+(* each iteration consumes the 8 length bytes: fuel above the stream length is never exhausted *)
+Lemma read_entries_no_fuel : forall fuel cnt acc s,
+  (length s < fuel)%nat -> read_entries fuel cnt acc s <> DErr DFuel.
+Proof.
+  induction fuel as [|f IH]; intros cnt acc s Hf; [lia|]. cbn [read_entries].
+  destruct (cnt =? 0); [discriminate|].
+  destruct (read_u64 s) as [[size s1]|e] eqn:E1; cbn [dbind].
+  2:{ apply read_u64_err_inv in E1. destruct E1; subst; discriminate. }
+  destruct (read_bytes_limit <? size); [discriminate|].
+  destruct ((v2_buf_size <? size) && make_panics size 1); [discriminate|].
+  destruct (read_full size s1) as [[buf s2]|e] eqn:E2; cbn [dbind].
+  2:{ apply read_full_err_inv in E2. destruct E2; subst; discriminate. }
+  destruct (lift (entry_unmarshal buf)) as [e|e] eqn:E3; cbn [dbind].
+  2:{ unfold lift in E3. destruct (entry_unmarshal buf); inversion E3. discriminate. }
+  apply IH.
+  apply read_u64_ok_inv in E1. destruct E1 as [a [-> Ha]].
+  apply read_full_ok_inv in E2. destruct E2 as [-> _].
+  rewrite !app_length in Hf. unfold len in Ha. lia.
+Qed.
+
+Lemma read_entries_err_ext : forall fuel cnt acc p q e,
+  read_entries fuel cnt acc p = DErr e ->
+  eof_like e \/ e = DFuel \/ (forall f', (fuel <= f')%nat -> read_entries f' cnt acc (p ++ q) = DErr e).
+Proof.
+  induction fuel as [|f IH]; intros cnt acc p q e H; cbn [read_entries] in H.
+  - destruct (cnt =? 0); [discriminate|]. inversion H. auto.
+  - destruct (cnt =? 0) eqn:Ec; [discriminate|].
+    destruct (read_u64 p) as [[size s1]|e1] eqn:E1; cbn [dbind] in H.
+    2:{ inversion H; subst. left. apply read_u64_err_inv in E1. exact E1. }
+    assert (Hhead : forall f', (S f <= f')%nat -> forall R,
+               (read_bytes_limit <? size = false -> (v2_buf_size <? size) && make_panics size 1 = false ->
+                forall f'', (f <= f'')%nat ->
+                  (dlet '(buf, s2) <- read_full size (s1 ++ q);
+                   dlet e0 <- lift (entry_unmarshal buf); read_entries f'' (cnt - 1) (acc ++ [e0]) s2) = R) ->
+               (read_bytes_limit <? size = true -> R = DErr DLimit) ->
+               (read_bytes_limit <? size = false -> (v2_buf_size <? size) && make_panics size 1 = true -> R = DErr DPanic) ->
+               read_entries f' cnt acc (p ++ q) = R).
+    { intros f' Hle R H1 H2 H3. destruct f' as [|f'']; [lia|]. cbn [read_entries]. rewrite Ec.
+      rewrite (read_u64_ext _ q _ _ E1). cbn [dbind].
+      destruct (read_bytes_limit <? size) eqn:EL; [symmetry; apply H2; reflexivity|].
+      destruct ((v2_buf_size <? size) && make_panics size 1) eqn:EP; [symmetry; apply H3; reflexivity|].
+      apply H1; [reflexivity|reflexivity|lia]. }
+    destruct (read_bytes_limit <? size) eqn:EL.
+    { inversion H; subst. right. right. intros f' Hle. apply Hhead; [exact Hle|discriminate|reflexivity|discriminate]. }
+    destruct ((v2_buf_size <? size) && make_panics size 1) eqn:EP.
+    { inversion H; subst. right. right. intros f' Hle. apply Hhead; [exact Hle|discriminate|discriminate|reflexivity]. }
+    destruct (read_full size s1) as [[buf s2]|e2] eqn:E2; cbn [dbind] in H.
+    2:{ inversion H; subst. left. apply read_full_err_inv in E2. exact E2. }
+    destruct (lift (entry_unmarshal buf)) as [e0|e3] eqn:E3; cbn [dbind] in H.
+    2:{ inversion H; subst. right. right. intros f' Hle. apply Hhead; [exact Hle| |discriminate|discriminate].
+        intros _ _ f'' _. rewrite (read_full_ext _ _ q _ _ E2). cbn [dbind]. rewrite E3. reflexivity. }
+    destruct (IH _ _ _ q _ H) as [Hl|[Hl|Hl]]; [left; exact Hl|right; left; exact Hl|].
+    right. right. intros f' Hle. apply Hhead; [exact Hle| |discriminate|discriminate].
+    intros _ _ f'' Hf''. rewrite (read_full_ext _ _ q _ _ E2). cbn [dbind]. rewrite E3. cbn [dbind].
+    apply Hl. exact Hf''.
+Qed.
+
+Lemma read_entries_suffix : forall fuel cnt acc s es r,
+  read_entries fuel cnt acc s = DOk (es, r) -> (length r <= length s)%nat.
+Proof.
+  induction fuel as [|f IH]; intros cnt acc s es r H; cbn [read_entries] in H.
+  - destruct (cnt =? 0); [|discriminate]. inversion H; subst. lia.
+  - destruct (cnt =? 0); [inversion H; subst; lia|].
+    destruct (read_u64 s) as [[size s1]|e] eqn:E1; cbn [dbind] in H; [|discriminate].
+    destruct (read_bytes_limit <? size); [discriminate|].
+    destruct ((v2_buf_size <? size) && make_panics size 1); [discriminate|].
+    destruct (read_full size s1) as [[buf s2]|e] eqn:E2; cbn [dbind] in H; [|discriminate].
+    destruct (lift (entry_unmarshal buf)) as [e|e]; cbn [dbind] in H; [|discriminate].
+    apply IH in H. apply read_u64_ok_inv in E1. destruct E1 as [a [-> _]].
+    apply read_full_ok_inv in E2. destruct E2 as [-> _]. rewrite !app_length. lia.
+Qed.
+
+(* Lemma A: a message decoded from a prefix is the message the longer stream gives *)
+Lemma v2_decode_ext local remote st p q m st' rest :
+  v2_decode local remote st p = DOk (m, st', rest) ->
+  v2_decode local remote st (p ++ q) = DOk (m, st', rest ++ q).
+Proof.
+  destruct p as [|typ s1]; [discriminate|]. cbn [app v2_decode].
+  destruct (typ =? frame_link_heartbeat).
+  { intro H. inversion H; subst. reflexivity. }
+  destruct (typ =? frame_app_entries).
+  { destruct (negb (remote =? g_node (st_fromg st)) || negb (local =? g_node (st_tog st))); [discriminate|].
+    destruct (read_u64 s1) as [[l s2]|e] eqn:E1; cbn [dbind]; [|discriminate].
+    rewrite (read_u64_ext _ q _ _ E1). cbn [dbind].
+    destruct (read_bytes_limit / 8 <? l); [discriminate|].
+    destruct (make_panics l entry_sizeof); [discriminate|].
+    destruct (read_entries (S (length s2)) l [] s2) as [[es s3]|e] eqn:E2; cbn [dbind]; [|discriminate].
+    rewrite (read_entries_mono (S (length s2)) (S (length (s2 ++ q))) _ _ _ _
+               ltac:(rewrite app_length; lia) (read_entries_ext _ _ _ _ q _ _ E2)).
+    cbn [dbind].
+    destruct (read_u64 s3) as [[commit s4]|e] eqn:E3; cbn [dbind]; [|discriminate].
+    rewrite (read_u64_ext _ q _ _ E3). cbn [dbind].
+    intro H. inversion H; subst. reflexivity. }
+  destruct (typ =? frame_app); [|discriminate].
+  destruct (read_u64 s1) as [[size s2]|e] eqn:E1; cbn [dbind]; [|discriminate].
+  rewrite (read_u64_ext _ q _ _ E1). cbn [dbind].
+  destruct (read_bytes_limit <? size); [discriminate|].
+  destruct ((v2_buf_size <? size) && make_panics size 1); [discriminate|].
+  destruct (read_full size s2) as [[buf s3]|e] eqn:E2; cbn [dbind]; [|discriminate].
+  rewrite (read_full_ext _ _ q _ _ E2). cbn [dbind].
+  destruct (lift (msg_unmarshal buf)) as [m'|e]; cbn [dbind]; [|discriminate].
+  intro H. inversion H; subst. reflexivity.
+Qed.
+
+(* Lemma B: an error on a prefix is an EOF, or the error the longer stream gives as well *)
+Lemma v2_decode_err_ext local remote st p q e :
+  v2_decode local remote st p = DErr e ->
+  eof_like e \/ v2_decode local remote st (p ++ q) = DErr e.
+Proof.
+  destruct p as [|typ s1]; [intro H; inversion H; left; left; reflexivity|]. cbn [app v2_decode].
+  destruct (typ =? frame_link_heartbeat); [discriminate|].
+  destruct (typ =? frame_app_entries).
+  { destruct (negb (remote =? g_node (st_fromg st)) || negb (local =? g_node (st_tog st))); [intro H; right; exact H|].
+    destruct (read_u64 s1) as [[l s2]|e1] eqn:E1; cbn [dbind].
+    2:{ intro H; inversion H; subst. left. eapply read_u64_err_inv; eauto. }
+    rewrite (read_u64_ext _ q _ _ E1). cbn [dbind].
+    destruct (read_bytes_limit / 8 <? l); [intro H; right; exact H|].
+    destruct (make_panics l entry_sizeof); [intro H; right; exact H|].
+    destruct (read_entries (S (length s2)) l [] s2) as [[es s3]|e2] eqn:E2; cbn [dbind].
+    2:{ intro H; inversion H; subst.
+        destruct (read_entries_err_ext _ _ _ _ q _ E2) as [Hl|[Hl|Hl]].
+        - left. exact Hl.
+        - exfalso. subst. eapply read_entries_no_fuel; [|exact E2]. lia.
+        - right. rewrite Hl by (rewrite app_length; lia). reflexivity. }
+    rewrite (read_entries_mono (S (length s2)) (S (length (s2 ++ q))) _ _ _ _
+               ltac:(rewrite app_length; lia) (read_entries_ext _ _ _ _ q _ _ E2)).
+    cbn [dbind].
+    destruct (read_u64 s3) as [[commit s4]|e3] eqn:E3; cbn [dbind]; [discriminate|].
+    intro H; inversion H; subst. left. eapply read_u64_err_inv; eauto. }
+  destruct (typ =? frame_app); [|intro H; right; exact H].
+  destruct (read_u64 s1) as [[size s2]|e1] eqn:E1; cbn [dbind].
+  2:{ intro H; inversion H; subst. left. eapply read_u64_err_inv; eauto. }
+  rewrite (read_u64_ext _ q _ _ E1). cbn [dbind].
+  destruct (read_bytes_limit <? size); [intro H; right; exact H|].
+  destruct ((v2_buf_size <? size) && make_panics size 1); [intro H; right; exact H|].
+  destruct (read_full size s2) as [[buf s3]|e2] eqn:E2; cbn [dbind].
+  2:{ intro H; inversion H; subst. left. eapply read_full_err_inv; eauto. }
+  rewrite (read_full_ext _ _ q _ _ E2). cbn [dbind].
+  destruct (lift (msg_unmarshal buf)) as [m'|e3]; cbn [dbind]; [discriminate|].
+  intro H. right. exact H.
+Qed.
+
+(* every decoded message consumes at least its frame type byte *)
+Lemma v2_decode_consumes local remote st s m st' rest :
+  v2_decode local remote st s = DOk (m, st', rest) -> (length rest < length s)%nat.
+Proof.
+  destruct s as [|typ s1]; [discriminate|]. cbn [v2_decode length].
+  destruct (typ =? frame_link_heartbeat).
+  { intro H. inversion H; subst. lia. }
+  destruct (typ =? frame_app_entries).
+  { destruct (negb (remote =? g_node (st_fromg st)) || negb (local =? g_node (st_tog st))); [discriminate|].
+    destruct (read_u64 s1) as [[l s2]|e] eqn:E1; cbn [dbind]; [|discriminate].
+    destruct (read_bytes_limit / 8 <? l); [discriminate|].
+    destruct (make_panics l entry_sizeof); [discriminate|].
+    destruct (read_entries (S (length s2)) l [] s2) as [[es s3]|e] eqn:E2; cbn [dbind]; [|discriminate].
+    destruct (read_u64 s3) as [[commit s4]|e] eqn:E3; cbn [dbind]; [|discriminate].
+    intro H. inversion H; subst.
+    apply read_u64_ok_inv in E1. destruct E1 as [a [-> _]].
+    apply read_entries_suffix in E2.
+    apply read_u64_ok_inv in E3. destruct E3 as [b [-> _]].
+    rewrite !app_length in *. lia. }
+  destruct (typ =? frame_app); [|discriminate].
+  destruct (read_u64 s1) as [[size s2]|e] eqn:E1; cbn [dbind]; [|discriminate].
+  destruct (read_bytes_limit <? size); [discriminate|].
+  destruct ((v2_buf_size <? size) && make_panics size 1); [discriminate|].
+  destruct (read_full size s2) as [[buf s3]|e] eqn:E2; cbn [dbind]; [|discriminate].
+  destruct (lift (msg_unmarshal buf)) as [m'|e]; cbn [dbind]; [|discriminate].
+  intro H. inversion H; subst.
+  apply read_u64_ok_inv in E1. destruct E1 as [a [-> _]].
+  apply read_full_ok_inv in E2. destruct E2 as [-> _].
+  rewrite !app_length. lia.
+Qed.
+
+(* the reader loop does not depend on its fuel once the fuel exceeds the stream length *)
+Lemma v2_decode_all_fuel local remote : forall f1 f2 st s,
+  (length s < f1)%nat -> (length s < f2)%nat ->
+  v2_decode_all f1 local remote st s = v2_decode_all f2 local remote st s.
+Proof.
+  induction f1 as [|f1 IH]; intros f2 st s H1 H2; [lia|].
+  destruct f2 as [|f2]; [lia|]. cbn [v2_decode_all].
+  destruct (v2_decode local remote st s) as [[[m st'] s']|e] eqn:E; [|reflexivity].
+  apply v2_decode_consumes in E. rewrite (IH f2 st' s'); [reflexivity|lia|lia].
+Qed.
+
+(* The truncation theorem for ARBITRARY streams: decoding a prefix p of a stream p ++ q yields a
+   prefix of the messages that p ++ q yields, and then either an EOF-class error or — having
+   delivered all of them — the very error p ++ q ends with. Never a different message. *)
+Lemma v2_prefix_fuel local remote q : forall fuel st p ms e ms' e',
+  (length (p ++ q) < fuel)%nat ->
+  v2_decode_all fuel local remote st (p ++ q) = (ms, e) ->
+  v2_decode_all fuel local remote st p = (ms', e') ->
+  exists j, ms' = firstn j ms /\ (eof_like e' \/ (ms' = ms /\ e' = e)).
+Proof.
+  induction fuel as [|f IH]; intros st p ms e ms' e' Hf Hfull Hpre; [lia|].
+  cbn [v2_decode_all] in *.
+  destruct (v2_decode local remote st p) as [[[m st'] r]|ep] eqn:Ep.
+  - rewrite (v2_decode_ext _ _ _ _ q _ _ _ Ep) in Hfull.
+    destruct (v2_decode_all f local remote st' (r ++ q)) as [ms1 e1] eqn:E1.
+    destruct (v2_decode_all f local remote st' r) as [ms1' e1'] eqn:E1'.
+    inversion Hfull; subst. inversion Hpre; subst.
+    apply v2_decode_consumes in Ep.
+    destruct (IH st' r ms1 e ms1' e') as [j [Hj Hc]]; [rewrite app_length in *; lia|exact E1|exact E1'|].
+    exists (S j). split.
+    + rewrite Hj. reflexivity.
+    + destruct Hc as [Hc|[Hc1 Hc2]]; [left; exact Hc|right; split; [f_equal; exact Hc1|exact Hc2]].
+  - inversion Hpre; subst. exists 0%nat. split; [reflexivity|].
+    destruct (v2_decode_err_ext _ _ _ _ q _ Ep) as [Hl|Hr]; [left; exact Hl|].
+    rewrite Hr in Hfull. inversion Hfull; subst. right. split; reflexivity.
+Qed.
+
+Theorem v2_truncation local remote p q :
+  exists j, fst (v2_run local remote p) = firstn j (fst (v2_run local remote (p ++ q))) /\
+            (eof_like (snd (v2_run local remote p)) \/ v2_run local remote p = v2_run local remote (p ++ q)).
+Proof.
+  unfold v2_run.
+  rewrite (v2_decode_all_fuel local remote (S (length p)) (S (length (p ++ q))) st0 p)
+    by (rewrite ?app_length; lia).
+  destruct (v2_decode_all (S (length (p ++ q))) local remote st0 (p ++ q)) as [ms e] eqn:E1.
+  destruct (v2_decode_all (S (length (p ++ q))) local remote st0 p) as [ms' e'] eqn:E2.
+  destruct (v2_prefix_fuel local remote q (S (length (p ++ q))) st0 p ms e ms' e' (Nat.lt_succ_diag_r _) E1 E2) as [j [Hj Hc]].
+  exists j. cbn [fst snd]. split; [exact Hj|].
+  destruct Hc as [Hc|[Hc1 Hc2]]; [left; exact Hc|right; rewrite Hc2, <- Hc1; reflexivity].
+Qed.
+
+(* for well-formed sequences: every prefix of the encoding decodes to a prefix of ms, then EOF *)
+Theorem v2_truncated_wf local remote ms p q :
+  v2_seq_ok local remote st0 ms = true -> v2_encode_all st0 ms = p ++ q ->
+  exists j, fst (v2_run local remote p) = firstn j ms /\ eof_like (snd (v2_run local remote p)).
+Proof.
+  intros Hok Hs. destruct (v2_truncation local remote p q) as [j [Hj Hc]].
+  rewrite <- Hs, (v2_roundtrip local remote ms Hok) in *. cbn [fst] in Hj.
+  exists j. split; [exact Hj|].
+  destruct Hc as [Hc|Hc]; [exact Hc|]. rewrite Hc. left. reflexivity.
 Qed.
